@@ -1,14 +1,20 @@
 """Per-property registry: which contract modules, lemmas and bounded stand-in decide it, and what is trusted."""
 
 COMMON_ASSUME = [
-    'Python semantics assumed by the VC generator: int is mathematical; list/set/dict iteration order arbitrary (lists modelled as sets carry no-duplicate obligations); filter/map/generators lazy; objects are references into a heap split by field; unmodelled callees do not raise unless their contract says so; termination only where a variant is given',
-    'DAWGIE is imported from $VERIF_REPO/Python (asserted), never from site-packages',
+    'Python semantics assumed by the VC generator: int is mathematical; set/dict iteration order arbitrary; lists whose order is irrelevant are modelled as sets with a no-duplicate obligation on every append, ordered lists as (length, array); filter/map/generators are lazy; objects are references into a heap split by field; unmodelled callees do not raise unless their contract says so; termination is not proved',
+    'DAWGIE is imported from $VERIF_REPO/Python (asserted at start), never from site-packages',
+    'logging calls are dropped; every other construct outside the modelled subset aborts the proof of that function (contract drift -> bounded stand-in only), it is never skipped silently',
 ]
-A1 = 'A1 atomic callbacks: reactor callbacks run to completion one at a time (Twisted)'
+A1 = 'A1 atomic callbacks: reactor callbacks run to completion one at a time (Twisted); code that DAWGIE runs on pool threads is outside the family'
 A2 = 'A2 promotion off: dawgie.context.allow_promotion is False, so schedule.promote() is falsy and has no effect'
 A3 = 'A3 names: algorithm/state-vector/value/target names contain no "." and none of the separators ":parent___" / "___version:"'
 A4 = 'A4 one node per tag in the algorithm tree and in the queue'
 A5 = 'A5 declared inputs are acyclic (no self dependence); feedback references are not ordering edges'
+A6 = 'A6 atomic storage steps: os.rename within one file system, one shelve assignment, one os.unlink are atomic'
+A7 = 'A7 library contracts: struct ">I" is a bijection 0..2^32-1 <-> 4 bytes; pickle.loads(pickle.dumps(x)) == x; transitions.Machine rejects an unlisted (state, trigger) before any callback and runs before -> state change -> after; twisted deferToThread/LoopingCall/callLater deliver their callbacks'
+A8 = 'A8 the PostgreSQL back end (db/post) cannot run here and is not decided'
+
+BOUNDED = 'bounded stand-in (labelled, never counted as proved): run-time oracle from the property statement on the real code over the bounded space stated in evidence.coverage.bounded'
 
 PROPS = {}
 
@@ -22,12 +28,91 @@ def prop(pid, **kw):
     PROPS[pid] = kw
 
 
-prop('C05', contracts=['c05_purge'], level='other',
-     technique='contract-based deductive verification: pyvc VCs from the real AST of schedule.purge discharged by z3/cvc5; bounded scheduler simulation as labelled stand-in',
-     explanation='withdrawal and the full frame of schedule.purge are proved for every tree and state (loop invariant + recursive contract); Hand._res/_translate/complete and the history entry are checked by the bounded simulation only',
-     trusted_base=['xml.etree.ElementTree.Element modelled as (tag, attrib fields by constant key, child set)', 'desc* as an uninterpreted relation constrained by true facts of the least fixed point'],
+TECH = 'contract-based deductive verification: pyvc generates VCs from the real AST of the functions under sidecar contracts, z3 (cvc5 for unknowns) discharges them for all inputs; '
+ELEMENT = 'xml.etree.ElementTree.Element modelled as (tag, attributes addressed by constant keys, child set)'
+
+prop('C01', contracts=['c01_release'],
+     technique=TECH + 'release filter of schedule.next_job_batch and schedule.find proved with loop invariants; bounded scheduler simulation as labelled stand-in',
+     explanation='PROVED for every queue/tree/state: next_job_batch releases (n,t) only if no queued ancestor of n has t or __all__ pending or executing and never releases __all__ while an ancestor is queued (post.safety), it only moves targets todo->do/doing (post.conserve.*), pending-or-executing of every node is unchanged by the batch, result = nodes with a release; find returns the queued node with that tag. BOUNDED ONLY: that `ancestry` is the transitive closure (C09), that every writer keeps pending work in the queue (J1), and the interleavings of events on the simulated farm.',
+     trusted_base=[ELEMENT, 'dawgie.util.fifo.Unique viewed as a set (order abstracted)', 'promotion.Engine.__call__ returns falsy (A2)'],
+     assumptions=[A1, A2, A4, A5])
+prop('C02', contracts=[],
+     technique='not decided deductively yet: bounded scheduler/farm simulation on the real code (labelled bounded)',
+     explanation='BOUNDED ONLY: schedule.update/organize and the closure at quiescence are explored by the simulation (all event sequences up to the stated depth on the stated graphs); no obligation is discharged for this property',
+     assumptions=[A1, A2, A3, A4, A5])
+prop('C03', contracts=['c01_release'],
+     technique=TECH + 'once-only release proved on next_job_batch; farm ledger by the bounded simulation',
+     explanation='PROVED: next_job_batch never releases a target the job already has in doing (post.once) and moves each released target to do/doing exactly once (post.conserve.*); find returns the queued node. BOUNDED ONLY: one message per released unit, at most one worker per message, every reply applied once, crew view = in flight.',
+     trusted_base=[ELEMENT], assumptions=[A1, A2, A4])
+prop('C04', contracts=['c01_release'],
+     technique=TECH + 'conservation/queue obligations on next_job_batch; quiescence by the bounded simulation',
+     explanation='PROVED: next_job_batch changes no queue membership and releases only queued nodes (post.only-queued, frame). BOUNDED ONLY: idle => empty queue after every event (J2), release liveness per dispatch, run-to-quiescence.',
+     trusted_base=[ELEMENT], assumptions=[A1, A2, A5])
+prop('C05', contracts=['c05_purge'],
+     technique=TECH + 'recursive contract and loop invariant of schedule.purge; bounded simulation for Hand._res and the history entry',
+     explanation='PROVED for every tree and state: purge withdraws the target from todo/doing/do of every descendant, changes no other target, no non-descendant, only removes (post.withdrawn.*, post.frame.*, post.only-removes.*). BOUNDED ONLY: Hand._res calls complete then purge and never update on non-success, one history entry with the outcome.',
+     trusted_base=[ELEMENT, 'desc* as an uninterpreted relation constrained by true facts of the least fixed point (reflexive, step, inversion witness)'],
      assumptions=[A1, A4, A5])
-prop('C15', contracts=['c15_version'], level='other',
-     technique='contract-based deductive verification: pyvc VCs from the real AST of dawgie.Version discharged by z3; bounded build() stand-in',
-     explanation='the six comparison operators and newer() are proved equal to the lexicographic order for all integer triples, with the order lemmas; schedule.build/_diff are decided by the bounded stand-in',
+prop('C06', contracts=[],
+     technique='not decided deductively yet: bounded histories on a real shelve store (labelled bounded)',
+     explanation='BOUNDED ONLY: store/load histories against a dictionary model written from the statement; no obligation is discharged for this property',
+     assumptions=[A3, A6, A7, A8])
+prop('C07', contracts=[],
+     technique='not decided deductively yet: bounded crash injection on a real shelve store (labelled bounded)',
+     explanation='BOUNDED ONLY: digest naming, novelty flag, single copy and no dangling reference after every operation and after a crash at every file-system/table call of one update',
+     assumptions=[A6, A7])
+prop('C08', contracts=[],
+     technique='not decided deductively yet: bounded histories with prefix-colliding names on a real shelve store (labelled bounded)',
+     explanation='BOUNDED ONLY: table/index bijection across reopen, chain resolution, next run id, exact-name remove/reset/trace',
+     assumptions=[A3, A7])
+prop('C09', contracts=[],
+     technique='not decided deductively yet: bounded enumeration of synthetic engines against the declared graph (labelled bounded)',
+     explanation='BOUNDED ONLY: Construct.at/svt/tt/vt, ancestry and feedbacks compared with the graph computed from the declarations',
+     assumptions=[A5])
+prop('C10', contracts=['c12_submit'],
+     technique=TECH + 'FSM guard (transitioning setter), activity predicate and reset proved; trigger/completion orders by the bounded stand-in',
+     explanation='PROVED: the transitioning setter only leaves `active` from `active` and raises otherwise leaving the guard unchanged; is_pipeline_active() <=> state==running and transitioning==active; reset() sets all events, clears the priority and ends active. BOUNDED ONLY: the transition table against state.dot, every trigger sequence with background completions in every order, return to rest.',
+     trusted_base=['transitions.Machine trigger semantics (A7)'], assumptions=[A1, A7])
+prop('C11', contracts=['c11_farm'],
+     technique=TECH + 'registration, notification, gate and run-id contracts on farm.Hand/farm functions; bounded protocol histories as stand-in',
+     explanation='PROVED: Hand._reg lists the connection iff it registered with the current revision, otherwise sends abort and closes; connectionLost removes it; notify/notify_all tell every idle worker to leave and empty the list when the pipeline is not active (wait message and list kept when active); something_to_do() implies the pipeline is active; _process answers a status poll with proceed iff revision matches and active; rerunid reuses the job run id or draws one larger than every stored id. BOUNDED ONLY: dispatch assignment loop, message fields, tasks that cannot be placed stay queued.',
+     trusted_base=['message.send(m, hand) writes exactly one frame to that connection (proved for the receiving side under C14)', 'dawgie.db.next() > every stored run id (C08)'],
+     assumptions=[A1, A7])
+prop('C12', contracts=['c12_submit'],
+     technique=TECH + 'priority lattice, crossroads and waiter bookkeeping contracts on FSM; multi-cycle histories by the bounded stand-in',
+     explanation='PROVED: Priority.max is the join of TODO<DOING<CREW<NOW ignoring None; set_submit_info keeps the strongest priority so far (unknown strings = TODO); submit_crossroads does nothing unless the pipeline is active and otherwise enters exactly the waiter of the priority (NOW reloads at once); wait_for_X clears its own event, sets the weaker ones, starts a poller iff none is live; their done() callbacks always release the poller slot and never trigger unless still waiting. BOUNDED ONLY: the condition holds at the instant of the trigger, exactly-once across reload cycles.',
+     trusted_base=['threading.Event as a boolean flag (wait(timeout) returns the flag)', 'deferToThread returns a fresh Deferred and runs the poller'],
+     assumptions=[A1, A7])
+prop('C13', contracts=['c13_lock'],
+     technique=TECH + 'lock invariants L1/L2 proved inductive over _do_acquire/_do_release/connectionLost; interleavings by the bounded stand-in',
+     explanation='PROVED for any number of connections: (L1) db_lock <=> some connection has the lock, (L2) at most one has it, are preserved by _do_acquire, _do_release and connectionLost; a free lock is granted to the polling waiter which is told `unlock` only then; a stopped or disconnected waiter does nothing; a disconnecting holder frees the lock. Exclusion for every interleaving follows because each is an atomic reactor callback (A1). BOUNDED ONLY: the client side acquire/release and the LoopingCall schedule.',
+     trusted_base=['Worker._send pickles and writes one framed response', 'LoopingCall keeps firing every period'], assumptions=[A1])
+prop('C14', contracts=['c14_framing'],
+     technique=TECH + 'loop invariant of the three reassembly loops against the specification functions F/R; handshake by the bounded stand-in',
+     explanation='PROVED for every buffer state and every chunk: Hand.dataReceived, comms.Worker.dataReceived and LogSink.dataReceived deliver exactly F(len, buf++data) to _process/do/handle and leave the parser state R(len, buf++data). Chunking independence is the lemma F(s++c1++c2) = F(s++c1) ++ F(R(s++c1)++c2), whose induction on the number of frames is stated, not mechanised. BOUNDED ONLY: security.TwistedWrapper handshake gate/tail/fail.',
+     trusted_base=['struct ">I"/">L" bijection (A7)', 'pickle.loads as an uninterpreted function of the payload bytes'], assumptions=[A7])
+prop('C15', contracts=['c15_version'],
+     technique=TECH + 'the six comparison operators, newer() and schedule._diff proved; schedule.build by the bounded stand-in',
+     explanation='PROVED for all integer triples: ==, !=, <, <=, >, >= and newer() equal the lexicographic order on (design, impl, bugfix), with trichotomy/transitivity/antisymmetry lemmas; _diff returns exactly the names whose current version is not among the persisted ones. BOUNDED ONLY: version.current and schedule.build queue exactly the owners.',
      trusted_base=['namedtuple VERSION as an immutable record'], assumptions=[A3, A4])
+prop('C16', contracts=[],
+     technique='not decided deductively yet: bounded enumeration of generated engine packages (labelled bounded)',
+     explanation='BOUNDED ONLY: every subset of factory kinds per package, every single-rule violation at every position, accepted packages fed to Construct/build/periodics',
+     assumptions=[A5])
+prop('C17', contracts=['c17_search'],
+     technique=TECH + 'paging of SearchImplementation._find and Range membership proved; matching and normalisation by the bounded stand-in',
+     explanation='PROVED: _find returns total = number of matches and exactly entries index..index+limit-1 of the match list (all from index when limit is None), formatted from the right tables (post.total, post.page.*); pages tile the list (lemmas); Range.__contains__ is the half-open interval. BOUNDED ONLY: _prime_keys matching, _scrub/_divide normalisation, facet.',
+     trusted_base=['shelve.util.dissect name part as an uninterpreted function (C06)', 'every id of a matching prime key indexes its table (chain invariant, C08)'],
+     assumptions=[A7, A8])
+prop('C18', contracts=[],
+     technique='not decided deductively yet: bounded grid of completion times/windows on the real chronicle (labelled bounded)',
+     explanation='BOUNDED ONLY: append keeps earlier entries, complete appends once, find returns the exact window newest first',
+     assumptions=[])
+prop('C19', contracts=[],
+     technique='not decided deductively yet: bounded path grammar on real directory trees and exhaustive endpoint x method x caller x hook table (labelled bounded)',
+     explanation='BOUNDED ONLY: containment of fe._static, anonymous access limited to the allow-list, fail-closed hook',
+     assumptions=[])
+prop('C20', contracts=[],
+     technique='not decided deductively yet: bounded clock sweep 2023-12-25..2028-03-05 for every dow/dom/date/boot specification (labelled bounded)',
+     explanation='BOUNDED ONLY: _delay never fails, matches the specification and lies within one period; due events queue their node; recurrence',
+     assumptions=[A1])
